@@ -694,7 +694,8 @@ class Field(Criterion, JSON):
         :return:
             A copy of the field with the tables replaced.
         """
-        if self.table == current_table:
+        # a set operation used as a source inherits Term.__eq__, which builds a (truthy) criterion instead of comparing
+        if (self.table == current_table) is True:
             self.table = new_table
 
     def __hash__(self) -> int:
